@@ -20,7 +20,7 @@ import (
 // exceptions / interpolated strings, plus heredoc, nowdoc and inline-HTML tails.
 func genPrograms(e *lib.Env) []string {
 	r := e.Rand("gen")
-	n := e.Pick(7, 80)
+	n := e.Pick(6, 60)
 	var out []string
 	for i := 0; i < n; i++ {
 		cfg := gen.Config{MaxDepth: 2 + r.Intn(3), Budget: 8 + r.Intn(22), Exceptions: r.Intn(2) == 0, ThrowBias: r.Intn(6)}
